@@ -326,7 +326,7 @@ func (m *model) Enabled() []string {
 	}
 	out := []string{
 		"Propose:c1", "Propose:s1", "Propose:c1x",
-		"Confirm:B", "Confirm:X", "Confirm:none",
+		"Confirm:B", "Confirm:X", "Confirm:none", "Confirm:echo",
 		"Reject:B", "Reject:A", "Reject:X",
 		"Data:A", "Data:B",
 		"Saved:s1:A", "Saved:c1:A", "Saved:c1:X",
@@ -639,6 +639,8 @@ func (m *model) Check(ev, res string) []common.Violation {
 				cause = "wrong-key"
 			case rpc == "Confirm" && who == "none":
 				cause = "unsigned"
+			case rpc == "Confirm" && who == "echo":
+				cause = "issuer-signature-echoed"
 			case rpc == "Reject" && who == "A":
 				cause = "signed-by-issuer"
 			case rpc == "Reject" && who == "X":
